@@ -191,6 +191,21 @@ class Module:
         self.funcs = {n.name: n for n in self.tree.body if isinstance(n, ast.FunctionDef)}
         self.classes = {n.name: n for n in self.tree.body if isinstance(n, ast.ClassDef)}
 
+    def const(self, name):
+        """a module-level `NAME = <literal tuple / list / set / frozenset(...) of strings or numbers>`, evaluated"""
+        for n in self.tree.body:
+            if isinstance(n, ast.Assign) and len(n.targets) == 1 and isinstance(n.targets[0], ast.Name) and n.targets[0].id == name:
+                v = n.value
+                if isinstance(v, ast.Call) and isinstance(v.func, ast.Name) and v.func.id in ("frozenset", "set", "tuple") and len(v.args) == 1:
+                    v = v.args[0]
+                try:
+                    lit = ast.literal_eval(v)
+                except (ValueError, SyntaxError):
+                    return None
+                if isinstance(lit, (tuple, list, set, frozenset)) and all(isinstance(x, (str, int)) for x in lit):
+                    return S(tuple(sorted(lit) if isinstance(lit, (set, frozenset)) else lit))
+        return None
+
     def method(self, cls, name):
         c = self.classes.get(cls)
         if c is None:
@@ -292,6 +307,9 @@ class Interp:
             return v
         if node.id in self.mod.funcs or node.id in self.tr.cp.funcs:
             return ("modfunc", node.id)
+        c = self.mod.const(node.id)
+        if c is not None:
+            return c
         if node.id in ("torch", "math", "np"):
             return ("pymod", node.id)
         bad(node, f"unknown name {node.id}")
@@ -311,6 +329,7 @@ class Interp:
         return Tv(items)
 
     ev_List = ev_Tuple
+    ev_Set = ev_Tuple
 
     def ev_Attribute(self, node, sc):
         base = self.ev(node.value, sc)
@@ -523,6 +542,17 @@ class Interp:
             if isinstance(base, tuple) and base[0] in ("pymod", "pyattr"):
                 name = (base[1] if base[0] == "pymod" else base[1] + "." + base[2]) + "." + f.attr
                 return self.call_lib(node, name, sc)
+            if isinstance(base, Marker) and base.kind == "self":
+                # a private helper method of the same class: inlined
+                cls = next((c for c in self.mod.classes.values() if any(isinstance(m, ast.FunctionDef) and m.name == f.attr for m in c.body)), None)
+                if cls is None:
+                    bad(node, f"self.{f.attr}() is not a method of this module")
+                meth = next(m for m in cls.body if isinstance(m, ast.FunctionDef) and m.name == f.attr)
+                args, kwargs = self.args_of(node, sc)
+                clo = {k: v for k, v in sc.items() if k.startswith("__")}
+                clo["self"] = base
+                static = any(isinstance(d, ast.Name) and d.id == "staticmethod" for d in meth.decorator_list)
+                return self.inline(node, PyFn(meth, clo), ([] if static else [base]) + args, kwargs)
             return self.call_method(node, base, f.attr, sc)
         if isinstance(f, ast.Name) and f.id == "any" and f.id not in sc and len(node.args) == 1:
             g = self.ev(node.args[0], sc)
@@ -576,6 +606,8 @@ class Interp:
         return Bv(f"(hasAny {d.code} [{', '.join(lean_str(k) for k in keys.v)}])")
 
     def call_lib(self, node, name, sc):
+        if name == "torch.empty" and self.lenient:
+            return Cv("fourier_factor")        # the complex work buffer of reconstruct (filled row by row in the loops)
         args, kwargs = self.args_of(node, sc)
         un = {"torch.sqrt": "Num.sqrt", "torch.cos": "Num.cos", "torch.sin": "Num.sin", "math.cos": "Num.cos",
               "math.sin": "Num.sin", "math.sqrt": "Num.sqrt"}
@@ -587,8 +619,27 @@ class Interp:
             return Rv(f"(Num.exp {self.real_code(args[0], node)})")
         if name in ("torch.arctan2", "torch.atan2", "math.atan2") and len(args) == 2:
             return Rv(f"(Num.atan2 {self.real_code(args[0], node)} {self.real_code(args[1], node)})")
+        cmpf = {"torch.le": "(Num.leb {0} {1})", "torch.lt": "(Num.ltb {0} {1})", "torch.ge": "(Num.leb {1} {0})", "torch.gt": "(Num.ltb {1} {0})"}
+        if name in cmpf and len(args) == 2 and not kwargs:
+            return Bv(cmpf[name].format(self.real_code(args[0], node), self.real_code(args[1], node)))
+        if name in ("torch.abs", "torch.square", "torch.conj", "torch.real", "torch.sqrt_") and len(args) == 1 and not kwargs:
+            if name == "torch.real" and isinstance(args[0], Cv):
+                return Rv(f"({args[0].code}).re")
+            return self.method_on(node, args[0], name.split(".")[1], [], {})
+        if name in ("torch.clamp", "torch.clip") and len(args) == 1 and set(kwargs) <= {"min", "max"} and kwargs:
+            x = self.real_code(args[0], node)
+            if "min" in kwargs and "max" in kwargs:
+                return Rv(f"(Num.clip {x} {self.real_code(kwargs['min'], node)} {self.real_code(kwargs['max'], node)})")
+            if "min" in kwargs:
+                return Rv(f"(Num.max {x} {self.real_code(kwargs['min'], node)})")
+        if name == "torch.reciprocal" and len(args) == 1 and not kwargs:
+            return Rv(f"((Num.ofRat 1) / {self.real_code(args[0], node)})")
+        if name in ("torch.div", "torch.true_divide") and len(args) == 2 and not kwargs and isinstance(args[0], Rv):
+            return Rv(f"({args[0].code} / {self.real_code(args[1], node)})")
         if name == "torch.sign" and len(args) == 1:
             return Rv(f"(sgn {self.real_code(args[0], node)})")
+        if name == "torch.empty" and self.lenient:
+            return Cv("fourier_factor")        # the complex work buffer of reconstruct (filled row by row in the loops)
         if name in ("torch.zeros_like", "torch.zeros") and args:
             return Rv("Num.zero")
         if name == "torch.ones_like" and args:
@@ -607,10 +658,15 @@ class Interp:
 
     def call_method(self, node, base, attr, sc):
         args, kwargs = self.args_of(node, sc)
+        return self.method_on(node, base, attr, args, kwargs)
+
+    def method_on(self, node, base, attr, args, kwargs):
         if isinstance(base, EnvD) and attr == "get" and 1 <= len(args) <= 2 and isinstance(args[0], S) and isinstance(args[0].v, str):
             d = self.real_code(args[1], node) if len(args) == 2 else "Num.zero"
             return Rv(f"(dget {base.code} {lean_str(args[0].v)} {d})")
-        if isinstance(base, (Rv, Cv)) and attr in ("view", "unsqueeze", "to", "reshape", "broadcast_to", "contiguous", "clone", "float"):
+        if isinstance(base, Bv) and attr == "float" and not args:
+            return Rv(f"(if {base.code} then Num.one else Num.zero)")
+        if isinstance(base, (Rv, Cv)) and attr in ("view", "unsqueeze", "to", "reshape", "broadcast_to", "expand", "contiguous", "clone", "float"):
             return base
         if isinstance(base, Rv):
             x = base.code
@@ -622,8 +678,13 @@ class Interp:
                 return Rv(f"(Num.abs {x})")
             if attr in ("clip", "clamp", "clamp_min"):
                 lo = args[0] if args else kwargs.get("min")
+                hi = args[1] if len(args) > 1 else kwargs.get("max")
+                if lo is not None and hi is not None and attr != "clamp_min":
+                    return Rv(f"(Num.clip {x} {self.real_code(lo, node)} {self.real_code(hi, node)})")
                 if lo is not None and len(args) <= 1 and set(kwargs) <= {"min"}:
                     return Rv(f"(Num.max {x} {self.real_code(lo, node)})")
+            if attr == "reciprocal" and not args:
+                return Rv(f"((Num.ofRat 1) / {x})")
             if attr == "sum" and len(args) == 1 and isinstance(args[0], S) and args[0].v == 0 and not kwargs:
                 return BSum(x, "batch")
             if attr == "sum" and not args and not kwargs:
@@ -744,6 +805,16 @@ class Interp:
         if isinstance(s, ast.Expr):
             if isinstance(s.value, ast.Constant) and isinstance(s.value.value, str):
                 return
+            c = s.value
+            inpl = {"mul_": ast.Mult, "div_": ast.Div, "add_": ast.Add, "sub_": ast.Sub}
+            if isinstance(c, ast.Call) and isinstance(c.func, ast.Attribute) and c.func.attr in inpl and len(c.args) == 1 \
+                    and not c.keywords and isinstance(c.func.value, ast.Name):
+                # x.mul_(e) as a statement: x = x * e
+                fake = ast.BinOp(left=_load(c.func.value), op=inpl[c.func.attr](), right=c.args[0])
+                ast.copy_location(fake, s)
+                ast.fix_missing_locations(fake)
+                self.assign(c.func.value, self.ev(fake, sc), sc, s)
+                return
             if self.lenient:
                 return
             bad(s, "expression statement outside the grammar")
@@ -770,6 +841,8 @@ class Interp:
                 if n in sc.get("__loop_results__", {}):
                     if not isinstance(sc.get(n), S):          # `power` stays None for the single-pass kernels
                         sc[n] = sc["__loop_results__"][n]
+                elif isinstance(sc.get(n), Cv) and sc[n].code == "fourier_factor":
+                    pass                                   # the work buffer, whatever it is called
                 elif n not in sc.get("__pinned__", ()):
                     sc[n] = Poison("assigned inside a loop")
             return
@@ -781,6 +854,8 @@ class Interp:
                 return
             if isinstance(v, Rv):
                 v = Rv(self.em.let(t.id, v.code))
+            elif isinstance(v, Cv) and v.code == "fourier_factor":
+                pass
             elif isinstance(v, Cv):
                 v = Cv(self.em.let(t.id, v.code))
             elif isinstance(v, BSum) and self.lenient:
@@ -1051,8 +1126,21 @@ class Translator:
             return f"({v.items[0].code}, {v.items[1].code})"
         raise Untranslatable(f"{name}: return value shape outside the grammar")
 
-    @staticmethod
-    def render(lean_name, params, ret, lines, body, doc):
+    GLOBALS = {"let", "if", "then", "else", "true", "false", "R", "Cx", "Num", "npow", "dget", "hasKey", "hasAny", "cexp", "cdivR",
+               "sgn", "optVal", "optTruthy", "Option", "re", "im", "zero", "one", "ofRat", "pi", "sqrt", "cos", "sin", "exp",
+               "atan2", "abs", "max", "clip", "leb", "ltb", "smul", "conj", "isNone"}
+
+    @classmethod
+    def render(cls, lean_name, params, ret, lines, body, doc):
+        # a definition must be closed: every identifier is a parameter, a `let` of this definition, a generated definition or a
+        # prelude name — otherwise the source uses a value this slice has no role for, and the translation is refused
+        import re
+        text_ = re.sub(r'"[^"]*"', '""', " ".join(lines) + " " + body)
+        bound = {p for p, _ in params} | set(re.findall(r"let ([A-Za-z_][A-Za-z_0-9]*) :=", text_)) | cls.GLOBALS | set(SIGS) \
+            | {n.lstrip("_") for n in SIGS}
+        for tok in re.findall(r"(?<![A-Za-z_0-9.])[A-Za-z_][A-Za-z_0-9]*", text_):
+            if tok not in bound and not tok.startswith(("kernel_", "reconstruct_")):
+                raise Untranslatable(f"{lean_name}: the translated body refers to `{tok}`, which is not a parameter of this definition")
         ty = {"R": "R", "C": "Cx R", "R2": "R × R"}[ret]
         ps = " ".join(f"({p} : {LEAN_TY[k]})" for p, k in params)
         text = f"/-- {doc} -/\ndef {lean_name} {ps} : {ty} :=\n"
